@@ -5,23 +5,23 @@ V = os.path.dirname(os.path.dirname(os.path.abspath(__file__)))
 
 CLAIMED = {
  "C13": dict(
-    text="Proof (Kani/CBMC, full i32 domain) of function contracts on the real Generation methods that decide share-or-copy, of lemmas over those contracts, and of the coherence between the collector's mark test and the cloner's share test on a real one-object heap. Partial: the deep-clone traversal and parent-chain walk are not under contract.",
-    note="Trusted: Gc::get_type_info stubbed (no hash-map interning) in the coherence harness; Kani does not prove termination. Not under contract: Thread::can_share_values_with, Cloner visited map, structural equality of copies.",
-    technique="Kani function contracts (proof_for_contract + stub_verified) on real code in a scratch copy; CBMC/cadical",
+    text="Proof of the share-or-copy machinery. Kani (full i32 domain): function contracts on the real Generation methods, lemmas over them, coherence of the collector's mark test with the cloner's share test on a real one-object heap. Verus (unbounded, bodies extracted every run): Value::generation, Cloner::{new, force_full_clone, deep_clone, deep_clone_inner, deep_clone_array}, Gc::new_child_gc, Thread::can_share_values_with (parent-chain walk with an inductive invariant over a thread tree of any depth), Thread::deep_clone_value, <Reference as Userdata>::deep_clone: a pointer crosses uncopied only into its own heap or a descendant's; into an unrelated thread everything is copied; every pointer-carrying array representation has its elements cloned. Found and repaired the string-array defect.",
+    note="Trusted: env.rs stand-ins; the per-representation helpers deep_clone_str/data/closure/app, deep_clone_ptr (visited map) and Userdata::deep_clone are ASSUMED to return new objects of the receiving heap; thread-tree axiom (child = one level deeper, one generation younger, same global state); get_type_info stubbed in the Kani coherence harness. Not under contract: visited-map sharing/cycle preservation, structural equality of copies, lifetime after the sender is dropped.",
+    technique="Kani function contracts on compiled code + Verus contracts on mechanically extracted bodies (incl. an inductive loop invariant for the parent-chain walk)",
     design="2/C13"),
  "C17": dict(
-    text="Proof (Verus/Z3, unbounded) of sequential contracts on the real bodies of Sender::send, Receiver::try_recv, reference set/get/make_ref (extracted mechanically every run), plus inductive lemmas that the contracts imply FIFO exactly-once delivery and last-write-wins for every operation history. Partial: lazy values and coroutines not covered.",
+    text="Proof (Verus/Z3, unbounded) of sequential contracts on the real bodies of Sender::send, Receiver::try_recv, the send primitive, reference set/get/make_ref and their st twins (extracted mechanically every run), plus inductive lemmas that the contracts imply FIFO exactly-once delivery and last-write-wins for every operation history. Partial: lazy values and coroutines not covered.",
     note="Trusted: env.rs stand-in types, R-lock (bodies verified as critical sections), assumed contract of deep_clone_value (structurally equal copy), clone_unrooted as identity. lazy.rs and resume/yield/spawn are outside both tools.",
     technique="Verus contracts on mechanically extracted function bodies + inductive history lemmas",
     design="2/C17"),
  "C01": dict(
-    text="Proof of the leaf operations the reference semantics bottoms out in: Verus (unbounded) on the real Stack/StackFrame primitives against a Seq<Value> view, Instruction::adjust against the documented stack-effect table, ProgramCounter index safety; Kani (full domain) on the 18 arithmetic/comparison interpreter arms (expression text parsed from execute_ every run) against Z / IEEE, and on the operator-name -> opcode table. Partial: translate/compile/call protocol are not under contract.",
+    text="Proof of the leaf operations the reference semantics bottoms out in. Verus (unbounded, extracted every run): 21 Stack/StackFrame primitives against a Seq<Value> view, Instruction::adjust against the documented stack-effect table, ProgramCounter index safety, and six interpreter arms (Pop, Slide, PushInt/Byte/Float, ConstructVariant: run-time effect = static effect, constructed value has exactly the top args values as fields in order). Kani (full domain): the 18 arithmetic/comparison interpreter arms (expression text parsed from execute_ every run) against Z / IEEE and the operator-name -> opcode table. Partial: translate/compile/call protocol are not under contract.",
     note="Trusted: env.rs stand-ins and rewrite rules listed in evidence; MultiplyInt/DivideInt references are core's checked_mul and the language's `/`; binop_* error mapping, Translator, Compiler::compile_, do_call, rename, implicits are unverified.",
     technique="Verus contracts on extracted bodies + generated Kani harnesses over the interpreter arm table",
     design="2/C01"),
  "C06": dict(
-    text="Proof (Kani, full argument domains; &str arguments bounded to <= 2 chars and labelled bounded) that every scalar primitive registered in load_int/load_byte/load_char/load_float/load_string - the registered expression text itself, parsed from the tables every run - neither panics nor traps nor exhibits UB on any well-typed argument; plus a Verus contract that frame exit never pops a locked frame. Found and repaired three classes of host-aborting primitives (see known_findings.txt).",
-    note="Trusted: debug-profile semantics; alloc::fmt::format stubbed; pow's overflow trap asserted through checked_pow because Kani does not model it; 43 table entries (libm floats, string searchers, unicode tables, Thread-dependent) are skipped and listed in evidence; array/userdata/IO primitives, unpack_and_call and call_thunk_top are unverified.",
+    text="Proof (Kani, full argument domains; &str arguments bounded to <= 2 chars and labelled bounded) that every scalar primitive registered in load_int/load_byte/load_char/load_float/load_string - the registered expression text itself, parsed from the tables every run - neither panics nor traps nor exhibits UB on any well-typed argument; Verus contracts on StackFrame::exit_scope (a locked frame is never popped) and reset_stack (exactly the frames above the recorded level are removed). Found and repaired three classes of host-aborting primitives; found (and recorded as a known finding) that reset_stack does not reclaim the values of a failed run.",
+    note="Trusted: debug-profile semantics; alloc::fmt::format stubbed; pow's overflow trap asserted through checked_pow because Kani does not model it; 51 table entries (libm floats, string searchers, unicode tables, Thread-dependent) are skipped and listed in evidence; strings longer than 2 chars are not explored; array/userdata/IO/random/regex primitives, unpack_and_call, call_thunk_top and async result delivery are unverified. Known finding C06/thread/reset_stack_values is reported, not repaired.",
     technique="generated Kani harnesses (one per primitive!() table entry) + Verus contract on exit_scope",
     design="2/C06"),
  "C07": dict(
@@ -30,14 +30,14 @@ CLAIMED = {
     technique="Kani harnesses on the real allocator + Verus contracts on extracted bodies",
     design="2/C07"),
  "C08": dict(
-    text="Thin partial proof: built-in operator fixity table (real OpTable::get, concrete enumeration) and the span algebra (Span::new/to/between/until/with_*/subspan/from_offset, Location::shift; full u32 domain) that parser actions and 'spans delimit the text' are built from.",
-    note="The shift/reduce resolver (reparse), layout algorithm, tokenizer and grammar are NOT under contract (reparse probed intractable for CBMC and outside Verus's dialect); OpTable::get only with an empty user table.",
-    technique="Kani harnesses (complete: loop-free or concrete) on real code",
+    text="Partial proof: built-in operator fixity table (real OpTable::get, concrete enumeration, Kani); the span algebra (Span::new/to/between/until/with_*/subspan/from_offset, Location::shift; full u32 domain, Kani) that parser actions and 'spans delimit the text' are built from; and (Verus, block extracted from reparse every run) the shift/reduce step of the operator-precedence re-parse: lower precedence or equal+both-left reduces, higher or equal+both-right shifts, equal precedence with different associativity is reported as ConflictingFixities.",
+    note="No grouping theorem: the reparse loop, Infixes iterator, error recovery and final fold are not under contract; `make_op` is uninterpreted. The layout algorithm, tokenizer and grammar are NOT under contract. User-declared fixities overriding built-ins is only a structural Verus check (hash maps are intractable for CBMC).",
+    technique="Kani harnesses (complete: loop-free or concrete) on compiled code + Verus contract on a block extracted from reparse",
     design="2/C08"),
  "C20": dict(
-    text="Proof (Kani, full u32 domain) that span containment is total and trichotomous and that is_macro_expanded is exact; bounded (1-4 siblings, complete per N) check that FindVisitor::select_spanned never panics and selects the first containing sibling / the right neighbour.",
-    note="Sibling selection is bounded in the number of siblings and labelled so; AST traversal, suggestion scoping, type agreement, signature_help and metadata queries are not under contract.",
-    technique="Kani harnesses on real code (complete for containment, bounded for sibling selection)",
+    text="Proof that span containment is total and trichotomous and is_macro_expanded exact (Kani, full u32 domain); that FindVisitor::select_spanned, for ANY number of ordered siblings and any cursor, terminates without panic and selects the first containing sibling / the right neighbour (Verus, unbounded, with Kani instances N = 1..4 as bounded twins on the compiled code); and that visit_one never panics, including on an empty sibling list. Found and repaired the empty-array panic.",
+    note="Verus side: Peekable over the sibling list modelled with std's peek/next semantics, the span closure as a field read, Span::containment's contract taken from the Kani proof. AST traversal (visit_expr/visit_pattern), suggestion scoping, type agreement, signature_help and metadata queries are not under contract.",
+    technique="Kani harnesses on compiled code + Verus contract with inductive loop invariant on the extracted body",
     design="2/C20"),
 }
 
